@@ -1,7 +1,90 @@
 import Mutagen.Driver.Util
+import Mutagen.Driver.C38
+import Mutagen.Model.Argv
 namespace Mutagen.Driver.C36
+open Mutagen.Driver Mutagen.Model.URL Mutagen.Model.Argv
+open Mutagen.Driver.C38 (hexStr unhexStr showVErr)
 
-/-- Model-side handler for one line of the C36 correspondence stream. -/
-def handle (_line : String) : String := "unimplemented"
+/-!
+Lines (strings are hex):
+* `ssh <user> <host> <port> <command> <sourceBase> <remoteName>` —
+  `EnsureValid` of the SSH synchronization URL with these components, then the
+  argument vectors of `sshTransport.Command` and `sshTransport.Copy`:
+  `valid cmd=<args> scp=<args>` or `invalid:<class>`.
+* `docker <user> <container> <params> <command> <localPath> <remoteName> <home> <probedUser> <probedGroup>` —
+  likewise for the Docker transport (POSIX container):
+  `valid probe=<args>;<args>;<args> cmd=<args> cp=<args> chown=<args> stop=<args> start=<args>`,
+  `valid flags-error` or `invalid:<class>`. `<params>` is `-` or `name=<hex>,…`.
+* `parse <kind> <first> <raw> <env> <norm>` — `url.Parse`, as in the C38 stream.
+`<args>` is `<n>:<hex>,<hex>,…`.
+-/
+
+def showArgs (l : List Arg) : String :=
+  s!"{l.length}:" ++ ",".intercalate (l.map fun a => hexStr a.text)
+
+/-- `connectTimeoutSeconds` (a variable, 5 unless MUTAGEN_SSH_CONNECT_TIMEOUT is set; the harness unsets it). -/
+def connectTimeoutSeconds : Nat := 5
+
+def testURL (protocol : Protocol) (user host : Str) (port : Nat) (parameters : List (Str × Str)) : URL :=
+  { kind := .synchronization, protocol := protocol, user := user, host := host, port := port,
+    path := "/p".toList, environment := [], parameters := parameters }
+
+def platform : Platform := posix false (fun _ => none) (fun _ => none)
+
+def parseParams (s : String) : Option (List (Str × Str)) :=
+  (listField s).mapM fun item =>
+    match item.splitOn "=" with
+    | [k, v] => do pure (k.toList, ← unhexStr v)
+    | _ => none
+
+def handle (line : String) : String :=
+  match fields line with
+  | ["ssh", user, host, port, command, sourceBase, remoteName] =>
+    match unhexStr user, unhexStr host, port.toNat?, unhexStr command, unhexStr sourceBase, unhexStr remoteName with
+    | some user, some host, some port, some command, some sourceBase, some remoteName =>
+      match ensureValid platform (testURL .ssh user host port []) with
+      | .error e => s!"invalid:{showVErr e}"
+      | .ok () =>
+        s!"valid cmd={showArgs (sshCommandArgs connectTimeoutSeconds user host port command)} " ++
+        s!"scp={showArgs (scpArgs connectTimeoutSeconds user host port sourceBase remoteName)}"
+    | _, _, _, _, _, _ => "bad-line"
+  | ["docker", user, container, params, command, localPath, remoteName, home, puser, pgroup] =>
+    match unhexStr user, unhexStr container, parseParams params, unhexStr command, unhexStr localPath,
+          unhexStr remoteName, unhexStr home, unhexStr puser, unhexStr pgroup with
+    | some user, some container, some params, some command, some localPath, some remoteName, some home,
+      some puser, some pgroup =>
+      match ensureValid platform (testURL .docker user container 0 params) with
+      | .error e => s!"invalid:{showVErr e}"
+      | .ok () =>
+        match daemonConnectionFlags params with
+        | .error _ => "valid flags-error"
+        | .ok flags =>
+          let probe (c : String) := showArgs (dockerExecArgs flags container user c.toList [] [])
+          s!"valid probe={probe "env"};{probe "id -un"};{probe "id -gn"} " ++
+          s!"cmd={showArgs (dockerExecArgs flags container user command home [])} " ++
+          s!"cp={showArgs (dockerCopyArgs flags container false home localPath remoteName)} " ++
+          s!"chown={showArgs (dockerChownArgs flags container user home puser pgroup remoteName)} " ++
+          s!"stop={showArgs (dockerStatusArgs flags container true)} " ++
+          s!"start={showArgs (dockerStatusArgs flags container false)}"
+    | _, _, _, _, _, _, _, _, _ => "bad-line"
+  | ["sshc", user, host, port, command] =>
+    match unhexStr user, unhexStr host, port.toNat?, unhexStr command with
+    | some user, some host, some port, some command =>
+      match ensureValid platform (testURL .ssh user host port []) with
+      | .error e => s!"invalid:{showVErr e}"
+      | .ok () => s!"valid cmd={showArgs (sshCommandArgs connectTimeoutSeconds user host port command)}"
+    | _, _, _, _ => "bad-line"
+  | ["dockerc", user, container, params, command, workdir, override] =>
+    match unhexStr user, unhexStr container, parseParams params, unhexStr command, unhexStr workdir, unhexStr override with
+    | some user, some container, some params, some command, some workdir, some override =>
+      match ensureValid platform (testURL .docker user container 0 params) with
+      | .error e => s!"invalid:{showVErr e}"
+      | .ok () =>
+        match daemonConnectionFlags params with
+        | .error _ => "valid flags-error"
+        | .ok flags => s!"valid cmd={showArgs (dockerExecArgs flags container user command workdir override)}"
+    | _, _, _, _, _, _ => "bad-line"
+  | "parse" :: rest => Mutagen.Driver.C38.handle (" ".intercalate rest)
+  | _ => "bad-line"
 
 end Mutagen.Driver.C36
